@@ -547,9 +547,11 @@ def _reproduced(f: dict, old_counts: bool) -> bool:
         return bool(f['observed']) == spec_in_scope(decls, s, old_counts) != spec_in_scope(decls, s)
     if f['sig'] == 'sub-invoked':
         return list(f['observed']) == sub_expected(c['parent'], c['subs'], c['sub_state'], old_counts)
-    if f['sig'] in ('stealth', 'invoked'):
+    if f['sig'] in ('stealth', 'stealth-finalizer', 'cycle-writes', 'invoked'):
         body = c['body']
-        if f['sig'] == 'stealth':
+        if f['sig'] != 'invoked':
+            # the object is "matched by no handler" by the docs, but in scope (kept, annotated, finaliser kept/required) only
+            # because the value criterion of a create/resume/delete handler holds on the old/absent side
             return spec_matched_by_any(decls, body, old_counts) and not spec_matched_by_any(decls, body)
         allowed = e2e_allowed(decls, body, c.get('event'), old_counts)
         return all(x in allowed for x in f['observed'])
@@ -1106,6 +1108,8 @@ def run(ctx: fw.Ctx) -> int:
     # ---------- corpus: hand-seeded dangerous cases (incl. the witnesses of the known findings) ----------
     corpus_cases: list[fw.Case] = []
     for c in load_corpus():
+        if 'state' not in c:
+            continue                        # end-to-end corpus cases ('body' + 'event') are run by e2e()
         corpus_cases += run_case(ctx, c['decls'], c['state'], tuple(c.get('excluded', ())), name=c['name'])
         ctx.count('corpus', 'cases')
     ctx.differential('corpus', HEADER, corpus_cases, shard=150)
@@ -1843,7 +1847,10 @@ def e2e(ctx: fw.Ctx, n: int) -> None:
     r = ctx.rng
     loop = asyncio.new_event_loop()
     try:
-        jobs = [(d, b, t) for d, b, t in e2e_dedup_jobs(ctx.thorough)]
+        jobs = [(c['decls'], c['body'], c.get('event')) for c in load_corpus() if 'state' not in c and 'body' in c]
+        for _ in jobs:
+            ctx.count('corpus', 'e2e cases')
+        jobs += [(d, b, t) for d, b, t in e2e_dedup_jobs(ctx.thorough)]
         for i in range(n):
             decls, body = gen_e2e(r)
             jobs.append((decls, body, r.choice([None, 'ADDED', 'MODIFIED'])))
